@@ -44,6 +44,9 @@ def harvest_pool(layouts, seeds):
         alias = dict(fam.get("_aliases", []))
         for T, ss in layouts.items():
             for st in flatten(ss, []):
+                if st["op"] in ("req", "opt") and not pool.get((st["ty"], "_")):
+                    for content in sorted(by_tag.get(st["tag"], []))[:6]:
+                        pool.setdefault((st["ty"], "_"), set()).add(content)
                 if st["op"] in ("reqv", "optv"):
                     f = fam.get(alias.get(st["fam"], st["fam"]))
                     for arm in (f or {}).get("arms", []):
